@@ -173,6 +173,36 @@ theorem liquidation_when_touched (e : Engine M) (sym : Nat) (c last : Candle) (l
   simp only [herr, Option.isSome_none, Bool.false_eq_true, if_false, h2, hq, hliq, hbk, htouch, decide_true, if_true, hsub, storeOf, logE, hlast]
 
 
+/-! ### which candle the check is given, and when
+
+In the normal simulator the check of a minute runs ONCE, after every resting order of the minute has been matched
+(with all the hooks those fills fire), on the state in which the minute is stored and the position is marked at the
+minute's close — and it is given the minute candle the matching loop worked on (the jump-fixed row), not the raw row. -/
+
+theorem minute_check_after_matching (fuel : Nat) (e : Engine M) (sym : Nat) (real : Candle) (h0 : e.err = none)
+    (h1 : (matchLoop u fuel e sym real
+        (let os := executingOrders e sym real; if os.length > 1 then sortExecutionOrders e os [real] else os)
+        (fun (e : Engine M) (c : Candle) =>
+          let os := executingOrders e sym c; if os.length > 1 then sortExecutionOrders e os [c] else os) false).1.err = none) :
+    simulateMinute u fuel e sym real =
+      checkLiquidation u
+        (setCurrentPrice (addCandle (matchLoop u fuel e sym real
+          (let os := executingOrders e sym real; if os.length > 1 then sortExecutionOrders e os [real] else os)
+          (fun (e : Engine M) (c : Candle) =>
+            let os := executingOrders e sym c; if os.length > 1 then sortExecutionOrders e os [c] else os) false).1 sym 1 real)
+          sym real.c) sym real := by
+  unfold simulateMinute
+  simp only [h0, Option.isSome_none, Bool.false_eq_true, if_false]
+  simp only at h1
+  simp only [h1, Option.isSome_none, Bool.false_eq_true, if_false]
+
+/-- a minute in which the matching loop fails ends there: no liquidation check on a broken state -/
+theorem minute_no_check_after_error (fuel : Nat) (e : Engine M) (sym : Nat) (real : Candle) (h0 : e.err.isSome) :
+    simulateMinute u fuel e sym real = e := by
+  unfold simulateMinute
+  simp [h0]
+
 end trigger
+
 
 end C09
